@@ -36,3 +36,7 @@ void w_remove_higher_dims(BDS& x, dimension_type n) { x.remove_higher_space_dime
 void w_time_elapse(BDS& x, const BDS& y) { x.time_elapse_assign(y); }
 void w_difference(BDS& x, const BDS& y) { x.difference_assign(y); }
 }
+/* CC76 extrapolation with caller-supplied stop points and no tokens (check C08) */
+extern "C" {
+void w_cc76(BDS& x, const BDS& y, const BDS::coefficient_type* first, const BDS::coefficient_type* last) { x.CC76_extrapolation_assign(y, first, last, 0); }
+}
